@@ -184,7 +184,7 @@ def c06_stress_oracle(line, res):
 PROPS["C06"] = dict(
     kinds=[
         dict(name="reuse", gen=c06_gen, oracle=c06_oracle, classify=c06_classify,
-             nontrivial=lambda l, r: True, timeout=900),
+             nontrivial=lambda l, r: True, timeout=900, impl_shards=10),
         dict(name="reuse_stress", gen=c06_stress_gen, oracle=c06_stress_oracle, model=False,
              classify=lambda l, r: "stress-" + gens.fields(l).get("via", "?"),
              nontrivial=lambda l, r: True, timeout=900),
